@@ -1,7 +1,25 @@
-(* C04 — Only genuine mint signatures are honoured, at exactly their signed amount
-   Statements only; every proof is `exact <lemma>` into Mint/*.v (model: Mint/Model.v, semantics: Mint/Sem.v). *)
+(* C04 - Only genuine mint signatures are honoured, at exactly their signed amount
+   Statements only; every proof is `exact <lemma>` into coq/Mint/*.v.
+
+   Reading guide (definitions in coq/Mint/*.v):
+     world            = store (tables spent/pending/signatures/mint quotes/melt quotes/keysets) + Lightning environment
+                        (invoices, scripted answers, log of pay calls) + the process memory (keysets, active keyset)
+     op               = one request (OSwap, OMint, OMelt, OMeltQuote, OMintQuote, OMintState, OMeltState, OCheck, ORestore,
+                        ORotate, ORestart, OWatcher, OBalance, OInfo) or environment step (ESettle, EScriptPay/Look, ...)
+     op_prog          = the request as a program over storage/Lightning calls, following mint/mint.go call by call
+     run p f w        = run program p from world w; f: which call positions get an injected storage error (no_fault: none)
+     run_n n p f w    = the same, but the process dies after n calls
+     step cfg f w o   = one request run to completion; run_history / reach: a sequential fault-free history from the empty store
+     hrun cfg w h     = a history of items: HNormal o | HFault o f | HCrash o n | HConc ops schedule (interleaving at call granularity)
+     WInv w           = every table has unique keys (Y, B_, quote ids, keyset ids)
+     Good w           = WInv w and no Y is both spent and pending
+     wext w w'        = spent and signature tables of w' extend those of w (nothing removed or altered)
+     same_but_calls   = nothing changed but the call counter
+     settled w h      = the backend reports the own invoice with payment hash h as settled
+
+*)
 From Coq Require Import ZArith List Bool.
-From Verif Require Import Model Sem InvDb InvSwap InvMint InvMelt Corollaries Queries.
+From Verif Require Import Model Sem InvDb InvSwap InvMint InvMelt Corollaries Queries Footprint HRel Global GlobalQuote GlobalValue GlobalErr GlobalQuery GlobalMelt GlobalKeys Cuts.
 Import ListNotations.
 Open Scope Z_scope.
 
@@ -18,8 +36,8 @@ Theorem C04_check_proofs_forall : forall (mem_ks : list ksrow) (ps : list proof)
 Proof. exact @check_proofs_forall. Qed.
 Print Assumptions C04_check_proofs_forall.
 
-Theorem C04_swap_accepts_only_genuine : forall (mem_ks : list ksrow) (active : Z) (ins : list proof) (outs : list bmsg) (sg : bool) 
-         (w w' : world) (sigs : list srow),
+Theorem C04_swap_accepts_only_genuine : forall (mem_ks : list ksrow) (active : Z) (ins : list proof) (outs : list bmsg) 
+         (sg : bool) (w w' : world) (sigs : list srow),
        WInv w ->
        run (swap mem_ks active ins outs sg) no_fault w = (w', Done (Ok sigs)) ->
        forall p : proof,
